@@ -359,7 +359,8 @@ var (
 type graphSpace struct {
 	n                  int
 	directed, weighted bool
-	stride, offset     int // graph indices offset, offset+stride, ...
+	stride, offset     int  // graph indices offset, offset+stride, ...
+	rotate             bool // one rotating ID map per graph even when the space is complete
 }
 
 func (s graphSpace) name() string {
